@@ -903,7 +903,18 @@ func c09R5(c *Ctx, a *c09A) {
 				if k == nil {
 					continue
 				}
-				c.OriginCheck(R, R+"|"+fnKey(TopLevel(f))+"|Tombstones index", in, "Tombstones "+what+" key", k, nil, CallTo(a.fp))
+				// a key ranged out of a Tombstones map is a dnskeyMaterialFP value by
+				// induction (F-C09-5: the set retained from an earlier refresh is
+				// merged key by key into the one just read)
+				tombKey := func(e *Expr) bool {
+					e = strip(e)
+					if e == nil || e.K != EExtract || e.Idx != 1 || e.V == nil {
+						return false
+					}
+					m, _ := c09RangeOf(e.V)
+					return m != nil && c09NamedIs(m.Type(), a.tombMapT)
+				}
+				c.OriginCheck(R, R+"|"+fnKey(TopLevel(f))+"|Tombstones index", in, "Tombstones "+what+" key", k, nil, CallTo(a.fp), tombKey)
 			}
 		}
 	}
